@@ -18,6 +18,7 @@ Obs == [closed   |-> sclosed,
         endc     |-> endClosed,
         rwait    |-> rwait,
         await    |-> await["s"],
+        timers   |-> timers,
         settled  |-> ~ENABLED Internal]
 
 Rec == hist' = Append(hist, [ev |-> lastEv', obs |-> Obs'])
